@@ -15,14 +15,17 @@
     and [c09_ticknow_old_refuted] keep the witness for the guard as it was
     ([GuardOld]: drop whenever nextTickTime >= now).
     Projection of the executable whole-simulation model of Model.v onto [cstep]:
-    proved ([c09_world_projects_partial], C09/Project.v) for worlds with ONE connection
-    into which every port is plugged, any components and scripts; the engine contract it
-    needs is itself proved to be an invariant of the world model (C09/Contract.v).
-    Not proved: several connections (the index mapping between global ports and a
-    connection's local port list) and the projection onto [dstep] (clause 2); those
-    remain covered by the exact trace tie and the quiescent-state scan on every run. *)
+    proved ([c09_world_projects], C09/ProjectN.v + ContractN.v) for worlds with ANY number
+    of connections (each port plugged into one of them), any components and scripts: for
+    every connection x, every run of the executable model is a run of the abstract
+    connection system for x; the engine contract this needs is itself proved to be an
+    invariant of the world model ([c09_engine_contract_invariant]).  So clause (1) holds
+    of the executable model without any checked hypothesis.
+    Not proved: the analogous projection onto [dstep] (clause 2: draining components);
+    that link remains by shared definitions, exercised by the exact trace tie and the
+    quiescent-state scan on every run. *)
 From Akita Require Import Lib.Base Lib.Fifo Lib.Port Lib.Conn C10.Model C10.Exec C10.Proofs
-     C09.Model C09.Proofs C09.Project C09.Contract.
+     C09.Model C09.Proofs C09.Project C09.Contract C09.ProjectN C09.ContractN.
 Local Open Scope N_scope.
 
 (** Regression (guard before the fix): a concrete topology (two connections bridged by an
@@ -123,7 +126,8 @@ Proof.
 Qed.
 Print Assumptions c09_draining_component_clean.
 
-(** Projection (partial: one-connection worlds).  For every world built the way the
+(** Projection, one-connection form (every port on the same connection, indices coincide).
+    For every world built the way the
     harness builds it — any ports (capacities, owners) all plugged into one direct
     connection, any scripted ticking / event-driven components, clock periods >= 1 —
     every run of the executable model IS a run of the abstract connection system
@@ -134,9 +138,8 @@ Print Assumptions c09_draining_component_clean.
     or while an earlier tick of the connection is pending) is no longer a hypothesis:
     [c09_engine_contract_invariant] derives it from the model's own dispatch order and
     from the fact that every scheduling path schedules at or after the current time.
-    Missing for the full statement: worlds with several connections; the same projection
-    for draining components ([dstep], clause 2). *)
-Theorem c09_world_projects_partial : forall ports comps period fuel tr,
+    [c09_world_projects] below is the general form. *)
+Theorem c09_world_projects_one_connection : forall ports comps period fuel tr,
   1 <= period -> Forall (fun d => 1 <= d_period d) comps ->
   Forall (fun p : Z * Z * nat * nat => snd p = 0%nat) ports ->
   let w0 := kick (build GuardNew ports comps [period]) in
@@ -145,18 +148,58 @@ Theorem c09_world_projects_partial : forall ports comps period fuel tr,
   (exists acts st', csteps GuardNew (st_init (w_ports w0) period) acts = Some st' /\ R wf st' /\ cinv st') /\
   forall k, deliv (w_ports wf) k = false.
 Proof. exact built_world_projects. Qed.
-Print Assumptions c09_world_projects_partial.
+Print Assumptions c09_world_projects_one_connection.
+
+(** Projection, general form.  For every world built the way the harness builds it — any
+    number of direct connections (periods >= 1), any ports each plugged into one of them,
+    any scripted ticking / event-driven components (periods >= 1) — and for every
+    connection x: every run of the executable model is a run of the abstract connection
+    system for x ([csteps] from the fresh state, related by [Rn x]: x's ports, x's scheduler,
+    x's pending tick events); hence [cinv] holds, and if the run ends un-halted with no
+    tick event of x queued, none of x's ports holds a deliverable message.  No checked
+    hypothesis: the engine contract is derived ([c09_engine_contract_invariant]). *)
+Theorem c09_world_projects : forall ports comps periods x period fuel tr,
+  Forall (fun p => 1 <= p) periods -> Forall (fun d => 1 <= d_period d) comps ->
+  nth_error periods x = Some period ->
+  let w0 := kick (build GuardNew ports comps periods) in
+  let wf := snd (fst (run fuel w0 tr)) in
+  w_halt wf = false -> xq wf x = [] ->
+  exists acts st' cx, csteps GuardNew (st_initN w0 x period) acts = Some st' /\ Rn x wf st' /\ cinv st' /\
+    nth_error (w_conns wf) x = Some cx /\
+    forall k, deliv (loc (w_ports wf) (x_ports cx)) k = false.
+Proof. exact built_world_projectsN. Qed.
+Print Assumptions c09_world_projects.
+
+(** non-vacuity of the general form: the two-connection witness topology (event-driven relay
+    bridging X0 and X1) under the repaired guard; periods >= 1, the run ends un-halted with
+    both queues empty, so the hypotheses hold for x = 0 and x = 1 *)
+Example c09_world_projects_two_connections_nonvacuous :
+  Forall (fun p => 1 <= p) [1000; 1000] /\ Forall (fun d => 1 <= d_period d) witness_comps /\
+  witness_world GuardNew = kick (build GuardNew witness_ports witness_comps [1000; 1000]) /\
+  let '(tr, wf, done) := run 100 (witness_world GuardNew) [] in
+  w_halt wf = false /\ xq wf 0 = [] /\ xq wf 1 = [] /\ (8 <= length tr)%nat.
+Proof.
+  split; [repeat constructor; lia|]. split; [repeat constructor; cbn; lia|]. split; [reflexivity|].
+  vm_compute. repeat split; try reflexivity; lia.
+Qed.
 
 (** The engine contract is an invariant: in every world satisfying the queue invariant
-    [QI] (both queues sorted by time, no event before the current time, component events
+    [QIn] (both queues sorted by time, no event before the current time, component events
     primary / connection events secondary, periods >= 1) — in particular every built
-    one-connection world — every run satisfies [run_ok]. *)
+    world — every run satisfies [run_okN] ([QI] / [run_ok]: the one-connection form). *)
 Theorem c09_engine_contract_invariant :
+  (forall fuel w, QIn w -> run_okN fuel w = true) /\
+  (forall ports comps periods x period, Forall (fun p => 1 <= p) periods ->
+     Forall (fun d => 1 <= d_period d) comps -> nth_error periods x = Some period ->
+     QIn (kick (build GuardNew ports comps periods))) /\
   (forall fuel w, QI w -> run_ok fuel w = true) /\
   (forall ports comps period, 1 <= period -> Forall (fun d => 1 <= d_period d) comps ->
      Forall (fun p : Z * Z * nat * nat => snd p = 0%nat) ports ->
      QI (kick (build GuardNew ports comps [period]))).
-Proof. split; [exact run_ok_holds|exact built_world_qi]. Qed.
+Proof.
+  split; [exact run_okN_holds|]. split; [|split; [exact run_ok_holds|exact built_world_qi]].
+  intros ports comps periods x period Hp Hc Hx. exact (proj1 (proj2 (built_worldN ports comps periods x period Hp Hc Hx))).
+Qed.
 Print Assumptions c09_engine_contract_invariant.
 
 (** non-vacuity: a ticking sender, an event-driven relay and a ticking receiver on one
